@@ -240,6 +240,7 @@ def specOf : H → Spec.Instr
   | .txa => ⟨.TXA, .imp, 2, false⟩
   | .txs => ⟨.TXS, .imp, 2, false⟩
   | .tya => ⟨.TYA, .imp, 2, false⟩
+  | .other => ⟨.BRK, .rel, 0, false⟩   -- no data-sheet line: never equal to a decoded instruction
 
 @[simp] theorem zpA_mod (n : Nat) : zpA (n % 256) = zpA n := by simp [zpA]
 @[simp] theorem zpA_mod_add (n k : Nat) : zpA (n % 256 + k) = zpA (n + k) := by
